@@ -92,6 +92,8 @@ type c13sub struct {
 	unregMid  uint32
 	waitReg   bool
 	waitUnreg bool
+	pending   bool // SubscribeID has neither returned nor sent its call yet (blocked behind another call of this client)
+	upBefore  int  // frames on the up link when SubscribeID started
 	cancelled bool // cancel requested
 	finished  bool // channel closed seen
 	queued    int  // events dispatched to the handler, not yet read
@@ -143,6 +145,21 @@ type c13world struct {
 	uidOf    map[uint64]int
 	bad      []string // harness-level surprises (an expected effect did not happen)
 	mode     int      // c13mode at creation
+	mayBlock bool     // a SubscribeID that neither returns nor sends is waiting for another one's remote call (repaired code)
+}
+
+// c13serialised: SubscribeID / cancel wait for a remote call of the same client that is in flight
+// (observed by the probe of switch sub_unserialised); the interleaved generator then does not
+// start one on a client that has a call in flight.
+var c13serialised = false
+
+func (w *c13world) busy(c int) bool {
+	for _, o := range w.subs {
+		if o.conn == c && (o.waitReg || o.waitUnreg || o.pending) {
+			return true
+		}
+	}
+	return false
 }
 
 // c13mode: how the object is set up before a schedule starts (by an extra client that is not part of
@@ -315,26 +332,67 @@ func (w *c13world) startSub(c int, sig uint32, h int) *c13sub {
 			return false
 		}
 	}
-	ok := w.n.WaitFor(c13Wait, func() bool { return isDone() || len(cl.c.Up.Frames()) > before })
-	switch {
-	case !ok:
-		w.surprise("SubscribeID(%d) on connection %d neither returned nor sent a frame", sig, c)
-	case isDone():
+	s.upBefore = before
+	wait := c13Wait
+	if w.mayBlock {
+		wait = c13Block
+	}
+	if !w.n.WaitFor(wait, func() bool { return isDone() || len(cl.c.Up.Frames()) > before }) {
+		if w.mayBlock {
+			s.pending = true // it goes on when the call it waits for has been answered: poll
+		} else {
+			w.surprise("SubscribeID(%d) on connection %d neither returned nor sent a frame", sig, c)
+		}
+		return s
+	}
+	w.started(s)
+	return s
+}
+
+// started: SubscribeID of s has got past its counter: it has returned, or its registerEvent call is on the up link.
+func (w *c13world) started(s *c13sub) {
+	cl := w.clients[s.conn]
+	select {
+	case <-s.done:
 		w.lab("LCount %d", s.idx)
 		w.afterReturn(s)
+		return
 	default:
-		f := cl.c.Up.Frames()[before]
-		if f.Hdr.Action != 0 || len(f.Payload) < 16 {
-			w.surprise("expected a registerEvent call, saw %v", f)
-		}
-		if len(f.Payload) >= 16 {
-			w.uidOf[binary.LittleEndian.Uint64(f.Payload[8:16])] = h
-		}
-		s.regMid, s.waitReg = f.Hdr.ID, true
-		w.lab("LCount %d", s.idx)
-		w.lab("LSendReg %d %d", s.idx, h)
 	}
-	return s
+	f := cl.c.Up.Frames()[s.upBefore]
+	if f.Hdr.Action != 0 || len(f.Payload) < 16 {
+		w.surprise("expected a registerEvent call, saw %v", f)
+	}
+	if len(f.Payload) >= 16 {
+		w.uidOf[binary.LittleEndian.Uint64(f.Payload[8:16])] = s.h
+	}
+	s.regMid, s.waitReg = f.Hdr.ID, true
+	w.lab("LCount %d", s.idx)
+	w.lab("LSendReg %d %d", s.idx, s.h)
+}
+
+// poll: subscribers whose SubscribeID was blocked and has moved on in the meantime.
+func (w *c13world) poll() bool {
+	moved := false
+	for _, s := range w.subs {
+		if !s.pending {
+			continue
+		}
+		cl := w.clients[s.conn]
+		n := len(cl.c.Up.Frames())
+		progressed := n > s.upBefore
+		select {
+		case <-s.done:
+			progressed = true
+		default:
+		}
+		if progressed {
+			s.pending = false
+			w.started(s)
+			moved = true
+		}
+	}
+	return moved
 }
 
 // afterReturn: SubscribeID has returned.
@@ -659,6 +717,9 @@ func (w *c13world) startCancel(s *c13sub) {
 // drain: everything that can still happen without a new request.
 func (w *c13world) drain() {
 	for i := 0; i < 10000; i++ {
+		if w.poll() {
+			continue
+		}
 		if _, ok := w.pendingReply(); ok {
 			w.reply()
 			continue
@@ -888,7 +949,9 @@ func c13sched17() (*c13world, bool) {
 	w := c13new(1)
 	w.drive()
 	w.startSub(0, 200, 1)
+	w.mayBlock = true
 	s2 := w.startSub(0, 200, 2)
+	w.mayBlock = false
 	early := s2.acked
 	w.emitSnap(200, 11)
 	w.drain()
@@ -1153,11 +1216,15 @@ func c13interleaved(rng *hx.Rng, nsteps int) *c13world {
 			}
 		}
 		if len(w.subs) < 8 {
-			add(3, func() { h++; w.startSub(rng.Intn(nc), c13sigs[rng.Intn(2)], h) })
+			if c := rng.Intn(nc); !c13serialised || !w.busy(c) {
+				add(3, func() { h++; w.startSub(c, c13sigs[rng.Intn(2)], h) })
+			}
 		}
 		for _, s := range w.liveSubs() {
 			s := s
-			add(1, func() { w.startCancel(s) })
+			if !c13serialised || !w.busy(s.conn) {
+				add(1, func() { w.startCancel(s) })
+			}
 		}
 		if !w.emitBusy {
 			add(4, func() { payload++; w.emitSnap(c13sigs[rng.Intn(2)], payload) })
@@ -1199,6 +1266,7 @@ func runC13(res *hx.Result, rng *hx.Rng, tier string, outdir string) {
 	w16, on16 := c13sched16()
 	w15, on15, dead15 := c13sched15()
 	dup := c13dupProbe()
+	c13serialised = !on17
 	sw := map[string]bool{"sub_unserialised": on17, "snapshot_send": on16, "uid_global": on15, "dup_relock": dup}
 	res.Switch("sub_unserialised", on17, "SubscribeID by a second subscriber returns while the first one's registerEvent call is held: schedule "+strings.Join(w17.labels, "; "))
 	res.Switch("snapshot_send", on16, "unregisterEvent is answered between UpdateSignal's snapshot and its send to that connection: schedule "+strings.Join(w16.labels, "; "))
